@@ -30,7 +30,7 @@
    variants are outside the Coq model (monitors only).  Weak memory: only the obligations above, no WM machine. *)
 From Coq Require Import ZArith List Bool.
 Require Import Verif.Gen.Gen_bounded_queue Verif.Conc.Machine Verif.BQ.BQModel Verif.BQ.BQProofs.
-Require Import Verif.BQ.BQInvDefs Verif.BQ.BQInvStep Verif.BQ.BQInvMain Verif.BQ.BQInvThm.
+Require Import Verif.BQ.BQInvDefs Verif.BQ.BQInvStep Verif.BQ.BQInvMain Verif.BQ.BQInvThm Verif.BQ.BQFifo.
 Import ListNotations.
 Local Open Scope Z_scope.
 
@@ -109,27 +109,35 @@ Proof. exact bq_exclusive. Qed.
 Print Assumptions c01_exclusive.
 
 (* exactly once: every delivered (pop ticket, value) is the (push ticket, value) written by the producer with the same ticket;
-   no ticket is delivered twice; no ticket is written twice *)
+   no ticket is delivered twice; no ticket is written twice; at quiescence what was pushed has been delivered or is still
+   in its slot *)
 Theorem c01_exactly_once : forall k progs s, usage_ok k progs = true -> Reach k progs s ->
-  (forall i v, In (i, v) (delivered s) -> In (i, v) (pushed s)) /\ NoDup (map fst (delivered s)) /\ NoDup (map fst (pushed s)).
-Proof. exact bq_exactly_once. Qed.
-Print Assumptions c01_exactly_once.
-
-(* ---- full-strength statements that are NOT proved (see header): kept visible, checked by exploration + monitors ---- *)
-(* exactly once / conservation: every delivered (pop ticket, value) is the (push ticket, value) written by the producer with the
-   same ticket; no ticket is delivered or written twice; at quiescence what was pushed is delivered or still in its slot *)
-Definition c01_exactly_once_statement : Prop := forall k progs s, usage_ok k progs = true -> Reach k progs s ->
   (forall i v, In (i, v) (delivered s) -> In (i, v) (pushed s)) /\ NoDup (map fst (delivered s)) /\ NoDup (map fst (pushed s)) /\
   (all_done s = true -> forall i v, In (i, v) (pushed s) -> In (i, v) (delivered s) \/
      pay (get_slot s (Z.to_nat (i mod 2 ^ Z.of_nat k))) = Some v).
-(* real-time order of tickets: every ticket obtained after a moment is larger than every ticket obtained before it; with
-   exactly-once this is the FIFO sentence of the property *)
-Definition tickets_of (role : bool) (s : st) : list (Z * nat) :=
-  flat_map (fun th => flat_map (fun '(o, r) => if Bool.eqb (is_push o) role then r_tks r else []) (combine (prog th) (results th)))
-           (threads s).
-Definition c01_fifo_realtime_statement : Prop := forall k progs s sch role a n b m, usage_ok k progs = true -> Reach k progs s ->
-  In (a, n) (tickets_of role s) -> In (b, m) (tickets_of role (run st step s sch)) -> ~ In (b, m) (tickets_of role s) ->
-  a + Z.of_nat n <= b.
+Proof. exact bq_exactly_once_full. Qed.
+Print Assumptions c01_exactly_once.
+
+(* ---- full-strength statements that are NOT proved (see header): kept visible, checked by exploration + monitors ---- *)
+(* real-time order of tickets (FIFO).  held s r u i = thread u holds ticket i of side r in s (acquired, not yet published).
+   For any reachable moment s and any later state s' = run s sch: the ticket counters only grow; a ticket that a thread holds in
+   s' and did not hold in s is >= the counter at s; a (ticket, value) written / delivered after s by an operation that did not
+   yet hold that ticket at s has a ticket >= the counter at s; everything held, written or delivered up to s has a ticket
+   below the counter at s.  Hence an operation that returned before another one began has the smaller tickets, and with
+   c01_exactly_once (the value of pop ticket i is the value of push ticket i) this is the FIFO sentence of the property.
+   (An earlier formulation over the tickets recorded in the per-call results was false of the model: a call that obtained its
+   ticket before s but returned after s shows up as a "new" result with an old ticket.) *)
+Theorem c01_fifo_realtime : forall k progs s, usage_ok k progs = true -> Reach k progs s -> forall sch,
+  let s' := run st step s sch in
+  (forall r, next_of s r <= next_of s' r) /\
+  (forall r u i, held s' r u i -> held s r u i \/ next_of s r <= i) /\
+  (forall i v, In (i, v) (pushed s') -> In (i, v) (pushed s) \/ (exists u, held s true u i) \/ npush s <= i) /\
+  (forall i v, In (i, v) (delivered s') -> In (i, v) (delivered s) \/ (exists u, held s false u i) \/ npop s <= i) /\
+  (forall r u i, held s r u i -> 0 <= i < next_of s r) /\
+  (forall i v, In (i, v) (pushed s) -> 0 <= i < npush s) /\ (forall i v, In (i, v) (delivered s) -> 0 <= i < npop s).
+Proof. exact bq_fifo_realtime. Qed.
+Print Assumptions c01_fifo_realtime.
+
 (* a try_ operation fails or comes up short only if the slot of the next ticket was not ready while it was the next ticket
    (queue full / empty at that moment) or another operation of the same side moved the ticket during the call *)
 Definition c01_try_fail_justified_statement : Prop := forall k progs s th i o r, usage_ok k progs = true -> Reach k progs s ->
